@@ -265,7 +265,7 @@ def canonical(cfg, extra_next=3, cap=None):
     N = cfg["N"]
     want = cfg["passes"]
     if cap is None:
-        cap = (40 * N * N + 400 * N + 200) * max(1, want)
+        cap = (4 * N * N + 100 * N + 300) * max(1, want)      # a legitimate stream is far shorter (s = 1: ~N^2/2)
     finalized = cfg["cls"] not in ONLINE
     ers = 0
     extra = None
@@ -341,7 +341,16 @@ def _alarm(signum, frame):
     raise _Hang()
 
 
-WATCHDOG_S = int(os.environ.get("VERIF_WATCHDOG", "120"))
+WATCHDOG_S = int(os.environ.get("VERIF_WATCHDOG", "60"))
+_HUNG = None      # shared counter (inherited by the forked workers): after many hangs the watchdog gets short
+
+
+def _hung_counter():
+    global _HUNG
+    if _HUNG is None:
+        import multiprocessing as mp
+        _HUNG = mp.get_context("fork").Value("i", 0)
+    return _HUNG
 
 
 def _work(cfg):
@@ -349,7 +358,8 @@ def _work(cfg):
     into an outcome ("hung": 1) instead of a hang of the harness."""
     import signal
     signal.signal(signal.SIGALRM, _alarm)
-    signal.alarm(cfg.get("watchdog", WATCHDOG_S))
+    hung = _hung_counter()
+    signal.alarm(cfg.get("watchdog", WATCHDOG_S) if hung.value < 24 else 3)
     try:
         if "calls" in cfg:
             return scripted(cfg, cfg["calls"])
@@ -357,6 +367,8 @@ def _work(cfg):
             return prefix(cfg, cfg["prefix"])
         return canonical(cfg)
     except _Hang:
+        with hung.get_lock():
+            hung.value += 1
         return {"cls": cfg["cls"], "p": cfg["p"], "N": cfg["N"], "passes": cfg["passes"],
                 "ctor": 0, "hung": 1, "capped": 0, "sib": 0, "sibo": cfg.get("sibo", 0), "siblen": 0, "prefix": cfg.get("prefix", 0), "ev": []}
     except BaseException as e:  # machinery failure, reported by the caller
@@ -374,6 +386,7 @@ def record_many(cfgs, procs=None):
         return [_work(c) for c in cfgs]
     ctx = mp.get_context("fork")
     lib()
+    _hung_counter()
     with ctx.Pool(procs) as pool:
         return pool.map(_work, cfgs, chunksize=max(1, len(cfgs) // (procs * 8)))
 
